@@ -63,6 +63,14 @@ Theorem C19_reindex_same_rows : forall s cs,
 Proof. exact reindex_same_rows. Qed.
 Print Assumptions C19_reindex_same_rows.
 
+(* Several tables in one database (db(sql) commits EVERY table before the query runs): the whole database is, table by
+   table, the unbuffered spec - for any number of tables and any interleaving of operations on them. *)
+Theorem C19_database_refines_spec : forall tbls ops,
+  sddom (sdcreate tbls) ops = true ->
+  drun impl_flags (dcreate tbls) ops = sdrun (sdcreate tbls) ops.
+Proof. exact (fun tbls ops => drefines_create impl_flags tbls ops (eq_refl : impl_flags = all_true)). Qed.
+Print Assumptions C19_database_refines_spec.
+
 (* structural facts of the source the model relies on (buffer discipline, Klong wrappers) *)
 Theorem C19_source_shape : buffer_shape_ok = true /\ wrappers_shape_ok = true.
 Proof. exact (conj eq_refl eq_refl). Qed.
